@@ -5,6 +5,10 @@ import json, sys
 ALL = ["C%02d" % i for i in range(1, 21)]
 
 CHECKS = {
+ "C07": dict(level="model_checking", design="§3 C07, §0.1 E3",
+   technique="explicit-state search over operation histories (BFS with canonical-state deduplication, real operations as transition functions compared with the composed reference specifications) + exhaustive (source document x destination) conversion pairs through the file API + the CLI binary compared byte for byte with the library",
+   text="Every readable corpus document is converted to every destination extension through OpenFile/Write on real files and read back (count, order, truncated times, text); every state reachable by operation sequences of length <=2 (thorough 3) over an 11-letter alphabet from 11 source documents is checked against the composed specifications and written to all writers; the CLI built from the tree is run for every sub-command and compared with the library.",
+   note="Trusted: Go toolchain/stdlib; the source reader (C01-C06 judge it); conservative representability predicates; text compared with all white space removed. Known finding: text lost in .stl under teletext display standards (see KNOWN_FINDINGS.txt)."),
  "C20": dict(level="model_checking", design="§3 C20, §0.1 E2",
    technique="stateless model checking with a cooperative scheduler over statement-level points of the instrumented library (all schedules within a preemption bound for every pair/triple of independent operations), plus an exhaustive frozen-globals invariant probed at every statement, plus a separate free-running race-detector pass",
    text="Stage A: every operation alone with the canonical hash of all package-level state compared at every statement and after every ordered pair. Stage B: every unordered pair of the operation alphabet in both orders (and 5 triples) under every schedule with <=1 preemption at statement granularity (<=2 for same-format pairs, thorough); every call's result must equal its solo result. Stage C: the same bodies free-running under -race.",
